@@ -16,14 +16,23 @@ SEARCHES = {
     'C03': ['c03-search'],
     'C04': ['c04-search', 'c03-search'],
     'C06': ['c06-search'],
-    'C07': ['c07-search'],
+    'C07': ['c07-search', 'c07s-search'],
     'C08': ['c08-search'],
-    'C10': ['c08-search', 'c11-search'],
+    'C10': ['c08-search', 'c11-search', 'c10s-search'],
     'C11': ['c11-search'],
     'C12': ['c12-search'],
     'C13': ['c13-search'],
     'C15': ['c15-search'],
     'C17': ['c17-search', 'c01-search'],
+    'C02': ['c02-search'],
+    'C14': ['c14-search'],
+    'C18': ['c18-search'],
+}
+
+
+# searches that only make sense as exploration (no failing clause maps to them)
+EXTRA_THOROUGH = {
+    'C20': ['c20-strings'],
 }
 
 
@@ -53,10 +62,7 @@ def build(repo):
     return os.path.join(dst, 'target', 'debug', 'peppi-verif-replay')
 
 
-def run_replay(repo, argv, timeout=300):
-    exe = build(repo)
-    env = dict(os.environ)
-    env['RUST_BACKTRACE'] = '0'
+XX
     env.setdefault('PEPPI_FIXTURES', os.path.join(repo, 'tests', 'data'))
     p = subprocess.run([exe] + argv, stdout=subprocess.PIPE, stderr=subprocess.STDOUT, text=True, timeout=timeout, env=env)
     return p.returncode, p.stdout
@@ -64,8 +70,31 @@ def run_replay(repo, argv, timeout=300):
 
 def search(prop, unit, failure, repo):
     for cmd in SEARCHES.get(prop, []):
-        rc, out = run_replay(repo, [cmd])
+        rc, out = run_replay(repo, [cmd], timeout=900, known=known_ids(prop))
         m = re.search(r'^WITNESS (.*)$', out, re.M)
         if m:
             return dict(replay_argv=m.group(1).split(), found_by=cmd, output=out[-1500:])
     return None
+
+
+def explore(prop, repo):
+    """thorough tier: run every native search of the property unconditionally.  -> list of dict(cmd, status, detail, wall_s, witness)"""
+    import time
+    res = []
+    for cmd in SEARCHES.get(prop, []) + EXTRA_THOROUGH.get(prop, []):
+        t0 = time.time()
+        try:
+            rc, out = run_replay(repo, [cmd], timeout=1800, known=known_ids(prop))
+        except Exception as e:
+            res.append(dict(cmd=cmd, status='unavailable', detail=str(e)[:300], wall_s=round(time.time() - t0, 1), witness=None))
+            continue
+        m = re.search(r'^WITNESS (.*)$', out, re.M)
+        ok = re.search(r'^(\S+ ok: .*)$', out, re.M)
+        if m:
+            res.append(dict(cmd=cmd, status='witness', detail=out[-1500:], wall_s=round(time.time() - t0, 1),
+                            witness=dict(replay_argv=m.group(1).split(), found_by=cmd, output=out[-1500:])))
+        elif rc == 0 and ok:
+            res.append(dict(cmd=cmd, status='ok', detail=ok.group(1)[:300], wall_s=round(time.time() - t0, 1), witness=None))
+        else:
+            res.append(dict(cmd=cmd, status='unavailable', detail='rc=%s %s' % (rc, out[-400:]), wall_s=round(time.time() - t0, 1), witness=None))
+    return res
